@@ -47,21 +47,11 @@ def queries(tier):
                            unwindset=CMPREC, timeout=600, mem_gb=4,
                            desc='operator<=> / == / != on scalars of kinds %d and %d (string lengths %d, %d), all values symbolic, vs reference ordering' % (a, b, la, lb),
                            bounds='kinds (%d,%d), string lengths (%d,%d)' % (a, b, la, lb)))
-    TREEREC = lambda depth: '%s:%d,%s:%d,_ZNK5phosg4JSONssERKS0_:%d,_ZN5phosg4JSONaSERKS0_:%d' % (SERIALIZE, depth, RESET, depth, depth, depth)
-    DEPTH = {0: 1, 1: 1, 2: 2, 3: 2, 4: 2, 5: 2, 6: 3, 7: 3, 8: 3, 9: 2, 10: 3}
-    if tier == 'quick':
-        cells = [(0, 0, 0, 0), (0, 1, 0, 0), (0, 3, 1, 2), (0, 5, 4, 0), (1, 6, 2, 0), (2, 4, 1, 4), (4, 3, 2, 2)]
-    else:
-        cells = []
-        for what in (0, 1, 2, 3, 4):
-            for shape in range(11):
-                if what >= 2 and shape in (0, 1, 9):
-                    continue
-                for (ka, kb) in ([(0, 0)] if shape in (0, 1, 9) else [(0, 1), (1, 2), (2, 4), (4, 0), (2, 2), (4, 4)]):
-                    cells.append((what, shape, ka, kb))
-    for (what, shape, ka, kb) in cells:
-        qs.append(dict(name='tree_w%d_s%d_k%d%d' % (what, shape, ka, kb), unit='ser', harness='h_tree.c', defs={'WHAT': what, 'SHAPE': shape, 'KA': ka, 'KB': kb}, unwind=24,
-                       unwindset=TREEREC(DEPTH[shape]), timeout=900, mem_gb=6, object_bits=11,
-                       desc='value tree shape %d, leaf kinds (%d,%d), operation %d (0 serialize, 1 serialize copy, 2 original after modifying copy, 3 modified copy, 4 equality): compact-text oracle, 64 option sets' % (shape, ka, kb, what),
-                       bounds='shape %d, leaf kinds %d/%d, 1-byte plain keys and string leaves' % (shape, ka, kb)))
+    COPYREC = '%s:1,%s:1,_ZNK5phosg4JSONssERKS0_:1,_ZN5phosg4JSONaSERKS0_:1' % (SERIALIZE, RESET)
+    for (k, over, L) in ([(0, 4, 0), (1, 2, 0), (2, 4, 0), (3, 2, 0), (4, 0, 1), (4, 4, 2)] if tier == 'quick' else
+                         [(k, o, 0) for k in (0, 1, 2, 3) for o in (0, 1, 2, 3, 4)] + [(4, o, L) for o in (0, 2, 4) for L in (0, 1, 2, 3)]):
+        qs.append(dict(name='copy_k%d_over%d_len%d' % (k, over, L), unit='ser', harness='h_copy.c', defs={'KIND': k, 'OVER': over, 'LEN': L}, unwind=6 * L + 24,
+                       unwindset=COPYREC, timeout=600, mem_gb=4,
+                       desc='copy construction / assignment of a scalar of kind %d (over a value of kind %d; string length %d): equal, same alternative, deep' % (k, over, L),
+                       bounds='source kind %d, overwritten kind %d, string length %d' % (k, over, L)))
     return qs
